@@ -581,6 +581,15 @@ def stdTypeStr (t : ExcType) : Str :=
 def printExcOnly (etype msg : Str) : Str :=
   if msg = [] then etype ++ ['\n'] else etype ++ (colonSp ++ msg) ++ ['\n']
 
+/-- `_some_str(value)` (after fix 5cec9e6): `str(value)`, or the traceback module's placeholder when `str()` raises
+    (`none`) -/
+def someStr : Option Str → Str
+  | some s => s
+  | none => "<exception str() failed>".toList
+
+/-- traceback._safe_string(value, 'exception') -/
+def stdSafeStr (v : Option Str) : Str := v.getD "<exception str() failed>".toList
+
 /-- one capture of a session: the class and `str()` of the exception -/
 abbrev Capture := ExcType × Str
 
